@@ -56,6 +56,9 @@ MetricsStrict == IF Rel = "swap" THEN /\ Len(E.sf_a) = Len(E.sf_b)
                       /\ SeqRel(E.sel_a, E.sel_b, SameV)
 Cl_MetricsRel == (E.ev = "Metrics") => (MetricsStrict \/ D3_Excuses)
 Ref_TwinOutcome == (E.ev = "TwinEnd") => E.a_outcome = E.b_outcome
+\* scaling area and feed by a power of two is exact in binary floating point: the scaled run is the same computation, so it
+\* returns exactly when the original does (a run that returned has a scaled twin with results to compare)
+Cl_ScaleOutcome == (E.ev = "TwinEnd" /\ O.level = "process" /\ O.rel = "scale" /\ O.kpow2) => E.a_outcome = E.b_outcome
 
 (* ------------------------------ function level ----------------------------- *)
 Fn(f) == f.ok                                \* both calls returned
